@@ -155,6 +155,11 @@ class Engine:
             return obj        # G.nodes: a live view; iteration / membership are those of the graph itself
         if not isinstance(obj.ty, RefT):
             raise Unsupported("attribute %s on %s" % (field, obj.ty))
+        cc = self.reg.class_const(obj.ty.cls, field)
+        if cc is not None:
+            return self.const(cc)
+        if field == "__class__":
+            return SV(z3.Function("class_of", Ref, Ref)(obj.v), RefT("ClassObj"))
         region, fty = self.field_region(obj.ty.cls, field)
         arr = st.H(region, fty.sort)
         val = arr[obj.v]
@@ -395,6 +400,11 @@ class Engine:
             yield st, self.const(self.reg.consts[n.id]); return
         if n.id in self.reg.globals:
             yield st, self.global_obj(n.id); return
+        if n.id in self.reg.classes:          # a class used as a value
+            c = z3.Const("classobj_" + n.id, Ref)
+            if ("co", n.id) not in self._wf_regions:
+                self._wf_regions.add(("co", n.id)); self.axioms.append(c != NULL)
+            yield st, SV(c, RefT("ClassObj")); return
         raise Unsupported("unbound name %s at line %s" % (n.id, n.lineno))
 
     def global_obj(self, name):
